@@ -10,15 +10,15 @@ ASSUMPTIONS = [
 
 
 def conditions(tier, seed):
-    t = 300 if tier == 'quick' else 3000
+    t = 600 if tier == 'quick' else 3000
     out = []
     if tier == 'quick':
-        plan = [(2, 8, list(range(8))), (3, 64, [(seed * 5 + k * 17) % 64 for k in range(4)])]
+        plan = [(2, 8, list(range(8))), (3, 128, [(seed * 5 + k * 37) % 128 for k in range(4)])]
     else:
-        plan = [(2, 8, list(range(8))), (3, 64, list(range(64)))]
+        plan = [(2, 8, list(range(8))), (3, 128, list(range(128)))]
     for steps, ns, picks in plan:
         for sh in picks:
             out.append(Cond('interleave%d_s%d' % (steps, sh), 'c18_indep.py', dict(steps=steps, shard=sh, nshards=ns), timeout=t,
-                            bound='first build, then every sequence of %d steps out of {build, input, 10 mutations x 2 target metamodels}, then a final build (shard %d/%d)' % (steps, sh, ns),
+                            bound='first build, then every sequence of %d steps out of {build, build with an explicit integer generator, input, rejected input, 11 mutations x 2 target metamodels}, then a final build (shard %d/%d)' % (steps, sh, ns),
                             case_split=['si (step sequence)'], realised=['model text'], twin=(sh == picks[0])))
     return out
